@@ -11,7 +11,8 @@
 //         F t                       t.tag = <fresh value>; reports who has it afterwards
 //         K j n                     level.c<j> = $n
 //         X <script, `|` = newline>     (corpus/probing only; reports nothing but warnings and the table)
-//   out:  m <val> w=<warning classes|-> log=<receivers|-> f=<flag of the case line, echoed as 0> t=<a>/<b>/<c>/<d>/<"">/<unlisted>
+//   out:  m <val> w=<warning classes|-> log=<receivers|-> t=<a>/<b>/<c>/<d>/<"">/<live objects in no list>
+//         (the driver's lines carry an extra f=<flag>, removed before the comparison)
 #include "engine.h"
 #include <morfuse/Script/SimpleEntity.h>
 #include <morfuse/Script/Level.h>
